@@ -3,42 +3,56 @@
 EXTENDS Fork, TLC, Json, IOUtils
 
 Rec == ndJsonDeserialize(IOEnv.TRACE)
-VARIABLES l, pos, cap, skip
-vars == << l, pos, cap, skip >>
+VARIABLES l, pos, cap, skip,
+          alive,    \* which branches exist (a `drop` event drops one; a re-split brings both back)
+          srclen    \* the source ends after srclen frames and continues with equilibrium (0); -1 = never
+vars == << l, pos, cap, skip, alive, srclen >>
 Ev == Rec[l]
 Consume == l <= Len(Rec) /\ l' = l + 1
 P0 == [A |-> 0, B |-> 0]
 
-ObsOK(o, p) == /\ o.ok
-               /\ o.pulls = MaxP(p)                      \* the source was pulled once per distinct frame
-               /\ o.pendA = PPending(p, "A") /\ o.pendB = PPending(p, "B")
+Both == [A |-> TRUE, B |-> TRUE]
+ObsOK(o, p, al) == /\ o.ok
+                   /\ o.pulls = MaxP(p)                      \* the source was pulled once per distinct frame
+                   /\ o.pendA = (IF al.A THEN PPending(p, "A") ELSE -1)
+                   /\ o.pendB = (IF al.B THEN PPending(p, "B") ELSE -1)
+SrcLenOf(c) == IF "srclen" \in DOMAIN c THEN c.srclen ELSE -1
+SrcVal(k) == IF srclen < 0 \/ k <= srclen THEN k ELSE 0    \* source frame k is the number k while the source lasts
 AcceptReset == /\ Ev.cfg.cap >= 1 /\ Ev.cfg.start < Ev.cfg.cap
-               /\ Ev.r.k = "unit" /\ ObsOK(Ev.o, P0)
+               /\ Ev.r.k = "unit" /\ ObsOK(Ev.o, P0, Both)
 X == Ev.a.branch
 InAssumption == Ev.ev = "next" => StepAllowed(pos, X, cap)   \* C12 claims nothing once a lead exceeds the capacity
+AliveNext == CASE Ev.ev = "resplit" -> Both
+               [] Ev.ev = "drop" -> [alive EXCEPT ![X] = FALSE]
+               [] OTHER -> alive
 AcceptOp ==
-  CASE Ev.ev = "next"    -> /\ Ev.r.k = "val" /\ Ev.r.v = PFrame(pos, X)   \* in order, none lost / duplicated
-                            /\ ObsOK(Ev.o, PNext(pos, X))
-    [] Ev.ev = "resplit" -> Ev.r.k = "unit" /\ ObsOK(Ev.o, pos)             \* re-splitting changes nothing
+  CASE Ev.ev = "next"    -> /\ alive[X]
+                            /\ Ev.r.k = "val" /\ Ev.r.v = SrcVal(PFrame(pos, X))   \* in order, none lost / duplicated
+                            /\ ObsOK(Ev.o, PNext(pos, X), alive)
+    [] Ev.ev = "resplit" -> Ev.r.k = "unit" /\ ObsOK(Ev.o, pos, Both)       \* re-splitting changes nothing
+    [] Ev.ev = "drop"    -> alive[X] /\ Ev.r.k = "unit" /\ ObsOK(Ev.o, pos, AliveNext)   \* nor does dropping a branch:
+                                                      \* the survivor still gets every frame, in order, from where it was
     [] OTHER -> FALSE
 \* C07: branches by reference / Rc never allocate after creation (creating Rc branches allocates once).  The clause
 \* is stateless and has no environment assumption: it is judged on every event, also after a branch overran the ring.
-HeapOK == (Ev.ev = "resplit" /\ Ev.a.to = "rc") \/ Ev.h = << 0, 0, 0 >>
+HeapOK == (Ev.ev = "resplit" /\ Ev.a.to = "rc") \/ Ev.ev = "drop" \/ Ev.h = << 0, 0, 0 >>   \* (the last Rc branch frees the fork)
 
 TReset == /\ Consume /\ Ev.ev = "reset"
+          /\ alive' = Both /\ srclen' = SrcLenOf(Ev.cfg)
           /\ IF AcceptReset THEN pos' = P0 /\ cap' = Ev.cfg.cap /\ skip' = FALSE
              ELSE PrintT(<< "REJECT", l, Ev.ev >>) /\ skip' = TRUE /\ UNCHANGED << pos, cap >>
-TOp == /\ Consume /\ Ev.ev # "reset" /\ ~skip
-       /\ IF ~InAssumption THEN /\ skip' = TRUE /\ UNCHANGED << pos, cap >>     \* outside C12: no claim on the frames
+TOp == /\ Consume /\ Ev.ev # "reset" /\ ~skip /\ UNCHANGED srclen
+       /\ IF ~InAssumption THEN /\ skip' = TRUE /\ UNCHANGED << pos, cap, alive >>     \* outside C12: no claim on the frames
                                 /\ (IF HeapOK THEN TRUE ELSE PrintT(<< "HEAP", l, Ev.ev >>))
           ELSE IF AcceptOp
             THEN /\ pos' = IF Ev.ev = "next" THEN PNext(pos, X) ELSE pos
+                 /\ alive' = AliveNext
                  /\ (IF HeapOK THEN TRUE ELSE PrintT(<< "HEAP", l, Ev.ev >>))
                  /\ UNCHANGED << cap, skip >>
-            ELSE PrintT(<< "REJECT", l, Ev.ev >>) /\ skip' = TRUE /\ UNCHANGED << pos, cap >>
-TSkip == /\ Consume /\ Ev.ev # "reset" /\ skip /\ UNCHANGED << pos, cap, skip >>
+            ELSE PrintT(<< "REJECT", l, Ev.ev >>) /\ skip' = TRUE /\ UNCHANGED << pos, cap, alive >>
+TSkip == /\ Consume /\ Ev.ev # "reset" /\ skip /\ UNCHANGED << pos, cap, skip, alive, srclen >>
          /\ (IF HeapOK THEN TRUE ELSE PrintT(<< "HEAP", l, Ev.ev >>))
-TraceInit == l = 1 /\ pos = P0 /\ cap = 1 /\ skip = TRUE
+TraceInit == l = 1 /\ pos = P0 /\ cap = 1 /\ skip = TRUE /\ alive = Both /\ srclen = -1
 TraceNext == TReset \/ TOp \/ TSkip
 TraceSpec == TraceInit /\ [][TraceNext]_vars
 AllConsumed == IF TLCGet("stats").diameter - 1 = Len(Rec) THEN TRUE
